@@ -67,6 +67,10 @@ def run_solve(st, opts):
     else:
         xt = rand_tt(tt, N, cfg["r"], gen, dt)
         b = (A @ xt).round(1e-14)
+    if cfg.get("scale", "unit") == "small":
+        # the residual bound is relative to ||b|| and invariant under scaling of A: badly scaled data are inputs like any other
+        b = 1e-5 * b
+        A = 1e3 * A
     Ad = dense_op(A)
     bd = project.dense(b.cores).reshape(-1)
     g = None
@@ -133,6 +137,9 @@ def run_divide(st, opts):
     x = rand_tt(tt, N, cfg["r"], gen, dt)
     z = rand_tt(tt, N, max(1, cfg["r"] // 2), gen, dt, scale=0.7)
     y = (1.0 + z * z).round(1e-14)                    # entries >= 1: bounded away from zero
+    if cfg.get("scale", "unit") == "small":
+        x = 1e-5 * x
+        y = 1e3 * y
     xd, yd = project.dense(x.cores), project.dense(y.cores)
     g = None
     if cfg["guess"] in ("fresh", "reused"):
